@@ -9,6 +9,7 @@ import (
 	"path/filepath"
 	"sort"
 	"strings"
+	"sync"
 
 	"golang.org/x/tools/go/packages"
 	"golang.org/x/tools/go/ssa"
@@ -35,10 +36,14 @@ type Program struct {
 	// Funcs is every function with a body that belongs to the module,
 	// including anonymous functions and bound-method wrappers seen.
 	Funcs []*ssa.Function
+	// Inlined lists the functions unknown to the rules whose calls were spliced.
+	Inlined []string
 	// TestPkgs is filled by LoadTests (syntax and types of _test.go files).
 	TestPkgs []*packages.Package
 
-	noret map[*ssa.Function]bool
+	noret  map[*ssa.Function]bool
+	nonnil map[*ssa.Function]bool
+	nnMu   sync.Mutex
 	eff   map[*ssa.Function]*Effects
 	cg    *CallGraph
 	guses map[*ssa.Global][]ssa.Instruction
@@ -73,6 +78,14 @@ const loadMode = packages.NeedName | packages.NeedFiles | packages.NeedCompiledG
 // Load type-checks /repo's current working tree (plus an optional overlay of
 // in-memory file replacements) and builds SSA for the module's packages.
 func Load(repo string, cfg BuildConfig, overlay map[string][]byte) (*Program, error) {
+	rounds := 3
+	if os.Getenv("AGECHECK_NO_INLINE") != "" {
+		rounds = 0
+	}
+	return load(repo, cfg, overlay, rounds)
+}
+
+func load(repo string, cfg BuildConfig, overlay map[string][]byte, rounds int) (*Program, error) {
 	fset := token.NewFileSet()
 	pc := &packages.Config{
 		Mode:    loadMode,
@@ -112,6 +125,31 @@ func Load(repo string, cfg BuildConfig, overlay map[string][]byte) (*Program, er
 	sort.Slice(p.Pkgs, func(i, j int) bool { return p.Pkgs[i].PkgPath < p.Pkgs[j].PkgPath })
 	if len(p.Pkgs) < 9 {
 		return nil, fmt.Errorf("only %d module packages loaded, expected at least 9", len(p.Pkgs))
+	}
+	if rounds > 0 {
+		// helpers the rules do not know are spliced into their callers (astinline.go);
+		// the normalised program must type-check, otherwise the original is analysed.
+		if ov, names := inlineUnknownHelpers(p.Pkgs, fset); ov != nil {
+			merged := map[string][]byte{}
+			for k, v := range overlay {
+				merged[k] = v
+			}
+			for k, v := range ov {
+				merged[k] = v
+			}
+			if os.Getenv("AGECHECK_DUMP_INLINE") != "" {
+				for k, v := range ov {
+					fmt.Fprintf(os.Stderr, "=== inlined %s\n%s\n", k, v)
+				}
+			}
+			np, err := load(repo, cfg, merged, rounds-1)
+			if err == nil {
+				np.Inlined = append(np.Inlined, names...)
+				return np, nil
+			}
+			fmt.Fprintf(os.Stderr, "agecheck: helper normalisation rejected (%v); analysing the program as written\n", err)
+			return load(repo, cfg, overlay, 0)
+		}
 	}
 	prog, spkgs := ssautil.Packages(p.Pkgs, ssa.InstantiateGenerics)
 	p.SSA = prog
